@@ -576,15 +576,22 @@ func (c *Conv) addBias(out, bias tensor.Tensor) (tensor.Tensor, error) {
 
 	biasShape[1] = bias.Shape()[0]
 
-	err := bias.Reshape(biasShape...)
+	// The bias can be a weight of the model or a tensor owned by the caller,
+	// so reshape a copy instead of the tensor itself.
+	reshapedBias, ok := bias.Clone().(tensor.Tensor)
+	if !ok {
+		return nil, ops.ErrTypeAssert("tensor.Tensor", bias.Clone())
+	}
+
+	err := reshapedBias.Reshape(biasShape...)
 	if err != nil {
 		return nil, err
 	}
 
-	out, bias, err = ops.UnidirectionalBroadcast(out, bias)
+	out, reshapedBias, err = ops.UnidirectionalBroadcast(out, reshapedBias)
 	if err != nil {
 		return nil, err
 	}
 
-	return tensor.Add(out, bias)
+	return tensor.Add(out, reshapedBias)
 }
